@@ -139,6 +139,43 @@ def search_C12(pid, budget):
                     [(g[0], g[1]) for g in got], [(i + 1, s) for i, (s, b) in enumerate(exp)]), pattern=pat)
         if dets != [(i + 1, s) for i, (s, b) in enumerate(exp)]:
             fail(pid, "TokenizerWorker.run", "detections list %r, split() gives %r" % (dets, exp), pattern=pat)
+    # when an observer receives detection k the worker's own list already holds it, and the region is complete
+    n += 1
+    data = synth("aAAAaaAAAAaa", 10)
+    rd = AudioReader(data, block_dur=0.01, sr=1000, sw=2, ch=1)
+    seen = []
+
+    class Peek:
+        def send(self, m):
+            if m != STOPM:
+                ids = [d.id for d in tw.detections]
+                ts = getattr(getattr(m[1], "meta", None), "timestamp", "absent") if getattr(m[1], "meta", None) is not None else "no-meta"
+                seen.append((m[0], m[0] in ids, ts))
+    tw = TokenizerWorker(rd, [Peek()], min_dur=0.02, max_dur=0.05, max_silence=0.01)
+    tw._inbox = ScriptQ(["E"] * 10000, STOPM)
+    tw.run()
+    for k, known, ts in seen:
+        if not known or ts == "absent":
+            fail(pid, "TokenizerWorker.run", "observer handling detection %d as soon as it is sent: in the worker's detections list: %r, "
+                 "timestamp on the region: %r" % (k, known, ts))
+    # multi-channel input with a channel selection: the worker's detections are split()'s for the same parameters
+    import struct as _st
+    n += 1
+    L, R = "aAAAAaaaaaaaaa", "aaaaaaaAAAAaaa"
+    st_data = b"".join(_st.pack("<2h", (20000 if (i // 10) < len(L) and L[i // 10] == "A" else 0) * (1 if i % 2 == 0 else -1),
+                                (20000 if R[i // 10] == "A" else 0) * (1 if i % 2 == 0 else -1)) for i in range(len(L) * 10))
+    for ukw in ({}, {"use_channel": 0}, {"use_channel": 1}, {"uc": 1}, {"use_channel": "mix"}):
+        kw2 = dict(min_dur=0.02, max_dur=0.1, max_silence=0.01)
+        kw2.update(ukw)
+        exp = [(round(r.start * 1000), bytes(r)) for r in split(AudioReader(st_data, block_dur=0.01, sr=1000, sw=2, ch=2), **kw2)]
+        o = Obs()
+        tw = TokenizerWorker(AudioReader(st_data, block_dur=0.01, sr=1000, sw=2, ch=2), [o], **kw2)
+        tw._inbox = ScriptQ(["E"] * 10000, STOPM)
+        tw.run()
+        got = [(round(m[1].start * 1000), bytes(m[1])) for m in o.got if m != STOPM]
+        if got != exp:
+            fail(pid, "TokenizerWorker.run", "stereo input with %r: observers got detections starting at %r, split() with the same "
+                 "parameters gives %r" % (ukw, [g[0] for g in got], [e[0] for e in exp]))
     # the observers are released even if closing the reader fails
     n += 1
     data = synth("aAAAaa", 10)
@@ -355,6 +392,45 @@ def search_C14(pid, budget):
         n += 1
         if log != ["reader.close", "send:STOP", "join"]:
             fail(pid, "StreamSaverWorker.close", "order of actions %r; expected reader closed, stop marker sent, writer joined" % log)
+        # a read that stays blocked for a few seconds after the stop request: stop_all() waits for the tokenizer
+        import threading
+        n += 1
+        gate = threading.Event()
+        inner4 = AudioReader(data, block_dur=0.01, sr=1000, sw=2, ch=1)
+
+        class Slow:
+            def __init__(self, r):
+                self.r, self.k = r, 0
+
+            def __getattr__(self, a):
+                return getattr(self.r, a)
+
+            def read(self):
+                self.k += 1
+                if self.k == 5:
+                    gate.wait(10)
+                return self.r.read()
+        got4 = []
+
+        class O4(Worker):
+            def __init__(self):
+                super().__init__(timeout=0.05)
+
+            def _process_message(self, m):
+                got4.append(m[0])
+        o4 = O4()
+        tw = TokenizerWorker(Slow(inner4), [o4], **kw)
+        tw.start_all()
+        time.sleep(0.3)
+        threading.Timer(2.6, gate.set).start()
+        tw.stop_all()
+        alive = tw.is_alive()
+        gate.set()
+        tw.join(5)
+        o4.join(5)
+        if alive:
+            fail(pid, "stop_all", "stop_all() returned while the tokenizer thread was still running (a read blocked for 2.6 s): "
+                 "observers were stopped and the reader closed under a live tokenizer; observer got ids %r" % got4)
         # a stream that ends before any block: the saved file is still a complete (empty) wav
         for cache in (0, 0.5):
             n += 1
